@@ -172,3 +172,27 @@ def run_blocks(items, pending_line=None):
     if faults:
         return Verdict(False, faults, 'open at end of input', None, innermost)
     return Verdict(True)
+
+
+def selftest():
+    """The reference against the examples the repository's own tests document (continuation with comments, block errors)."""
+    text = "# Comments don't continue \\\na = arrayNew( \\\n    # Comments are OK within a continuation...\n    1, \\\n" \
+           "    # ...with or without a continuation backslash \\\n    2 \\\n)\n"
+    lls = logical_lines(text)
+    assert [(ll.start, ll.end, ll.text, ll.pending, ll.interrupted) for ll in lls] == [(2, 7, 'a = arrayNew( 1, 2 )', False, False)], lls
+    lls = logical_lines('    fn1(arg1, \\\n    fn2(),\n    null))\n')
+    assert [(ll.start, ll.text) for ll in lls] == [(1, '    fn1(arg1, fn2(),'), (3, '    null))')], lls
+    assert logical_lines('a = 1 \\')[0].pending and logical_lines('a\r\nb')[1].text == 'b'
+
+    def verdict(*kinds):
+        return run_blocks([(k, n + 1) for n, k in enumerate(kinds)])
+    assert verdict('if', 'elif', 'else', 'endif', 'while', 'break', 'endwhile', 'function', 'for', 'continue', 'endfor', 'endfunction').accept
+    assert verdict('if', 'else', 'elif', 'endif').admissible == {3, 1}
+    assert verdict('while', 'function', 'break', 'endfunction', 'endwhile').admissible == {3}
+    assert verdict('function', 'if', 'endfunction').admissible == {3, 2}
+    assert verdict('if', 'function', 'endif', 'endfunction').admissible == {3}
+    assert verdict('function', 'function').admissible == {2, 1}
+    assert verdict('while', 'if').admissible == {1, 2} and verdict('function').admissible == {1}
+    assert verdict('other').accept and not run_blocks([('other', 1)], pending_line=1).accept
+    assert [classify(s) for s in ('  if x :', 'else:', 'for a, b in c:', 'async function f(a...):', 'lbl:', 'endif ', 'if x')] == \
+        ['if', 'else', 'for', 'function', 'other', 'endif', 'other']
